@@ -42,8 +42,8 @@ pub(crate) trait ISocketConnection: Send + Sync + fmt::Debug {
   async fn send_multipart(&self, msgs: FrameBatch) -> Result<(), ZmqError>;
 
   /// Attempts to send, returning ownership of `msgs` if the channel is immediately full
-  /// (SNDTIMEO=0 path). For blocking/timed sends that time out, the message is consumed
-  /// inside the dropped future and an empty batch is returned with the error.
+  /// (SNDTIMEO=0 path). Blocking/timed sends that time out must hand the refused message
+  /// back as well: callers re-queue whatever batch is returned.
   async fn send_multipart_owned(&self, msgs: FrameBatch) -> Result<(), (FrameBatch, ZmqError)> {
     match self.send_multipart(msgs).await {
       Ok(()) => Ok(()),
